@@ -219,17 +219,16 @@ Proof.
         set (A := List.map LC (print_symbol f (firstn idx name))) in *.
         set (B := List.map LC (print_symbol f (skipn (S idx) name))) in *.
         change (good (lflat [PHole A; PLit [LC 95; LC 123]; PHole B; PLit [LC 125]])).
-        apply good_template; [repeat constructor; assumption | vm_compute; reflexivity].
+        apply good_template; [|vm_compute; reflexivity].
+        unfold lholes. repeat (apply Forall_cons; [first [exact I | assumption]|]). apply Forall_nil.
       + unfold raw in *. rewrite !map_app. apply good_app; [exact G1|]. apply good_app.
         * apply good_iff_b. reflexivity.
         * apply (good_raw _ (plain_skipn (S idx) _ H)). }
   destruct name as [|c rest]; [exact Hmain|].
   destruct (N.eq_dec c 95) as [->|Hne].
   - apply IH. eapply Hrest. reflexivity.
-  - assert (forall X Y : list N, match c :: rest with 95 :: r => X r | _ => Y end = Y) as E.
-    { intros X Y. destruct c as [|q]; [reflexivity|].
-      do 7 (try destruct q as [q|q|]); try reflexivity; exfalso; apply Hne; reflexivity. }
-    rewrite E. exact Hmain.
+  - destruct c as [|q]; [exact Hmain|].
+    do 7 (try destruct q as [q|q|]); try exact Hmain; exfalso; apply Hne; reflexivity.
 Qed.
 
 Lemma good_latex_symbol : forall nm, tex_name_ok nm = true -> good (latex_symbol nm).
